@@ -7,10 +7,13 @@
   splices the cleaned text of the named file in front of the remaining input.
 
   The input stack of the C++ is represented by the flat list of lines still to be read
-  (top file first).  Not modelled: ENDINC, PATHS, IMPORT, PYINPUT, SKIP/ENDSKIP, TITLE, code
-  keywords, required/prohibited keyword checks, ParseContext policies other than the
-  default (every problem is an exception = `none`), a record that runs past the end of an
-  included file (undefined behaviour in the C++, see design.d/C20.lexer.md).
+  (top file first), the end of an included file by the marker `RawKw.eofMark`: a record that
+  runs past it is an error (fix d37f2f297), ENDINC drops the lines up to it.  Second round:
+  TITLE (`is_title`: the next line, even an empty one, is the record; the slash is kept),
+  SKIP/SKIP100 … ENDSKIP between keywords, ENDINC, PATHS (alias list handed to the file
+  lookup).  Not modelled: IMPORT, PYINPUT and code keywords, a SKIP block inside the records
+  of a keyword, required/prohibited keyword checks, ParseContext policies other than the
+  default (every problem is an exception = `none`).
 
   Core Lean only.
 -/
@@ -98,49 +101,149 @@ def newRaw (d : KwDef) (deck : DeckT) : Option Kw :=
 
 def nameEND : Bytes := [69, 78, 68]
 def nameINCLUDE : Bytes := [73, 78, 67, 76, 85, 68, 69]
+def nameTITLE : Bytes := [84, 73, 84, 76, 69]
+def nameSKIP : Bytes := [83, 75, 73, 80]
+def nameSKIP100 : Bytes := [83, 75, 73, 80, 49, 48, 48]
+def nameENDSKIP : Bytes := [69, 78, 68, 83, 75, 73, 80]
+def nameENDINC : Bytes := [69, 78, 68, 73, 78, 67]
+def namePATHS : Bytes := [80, 65, 84, 72, 83]
 
-/-- the keyword loop. `recog`: `Parser::isRecognizedKeyword`; `files`: INCLUDE path → content. -/
-def parseLoop (cv : Conv) (tbl : Table) (recog : Bytes → Bool) (files : Bytes → Option Bytes) :
-    Nat → DeckT → List Bytes → Option DeckT
-  | 0, _, _ => none
-  | _ + 1, deck, [] => some deck
-  | fuel + 1, deck, line :: rest =>
-    if line.isEmpty then parseLoop cv tbl recog files fuel deck rest
+/-- `ParseContext::isActiveSkipKeyword` under the default context (`m_input_skip_mode = "100"`):
+SKIP and SKIP100 start a skipped block, SKIP300 does not. -/
+def isSkipName (n : Bytes) : Bool := n == nameSKIP || n == nameSKIP100
+
+/-- `skip = true` in `tryParseKeyword` with no keyword open: lines are dropped up to and
+including the next line whose first word is ENDSKIP (end-of-file markers included: skipping
+goes on in the including file). -/
+def dropSkip : List Bytes → List Bytes
+  | [] => []
+  | l :: rest => if makeDeckName l == nameENDSKIP then rest else dropSkip rest
+
+/-- `ParserState::closeFile()` (ENDINC): the rest of the file on top of the input stack. -/
+def dropFile : List Bytes → List Bytes
+  | [] => []
+  | l :: rest => if l = eofMark then rest else dropFile rest
+
+/-- the line `tryParseKeyword` takes as the text of TITLE: the next line that is not
+skipped — empty lines count (`is_title`), end-of-file markers do not (the record buffer
+is empty), SKIP … ENDSKIP blocks are honoured.  `none`: the input ends first. -/
+def titleNext : Bool → List Bytes → Option (Bytes × List Bytes)
+  | _, [] => none
+  | skip, l :: rest =>
+    if l = eofMark then titleNext skip rest
+    else if isSkipName (makeDeckName l) then titleNext true rest
+    else if makeDeckName l == nameENDSKIP then titleNext false rest
+    else if skip then titleNext true rest
+    else some (l, rest)
+
+def defaultTitle : Bytes :=
+  [111, 112, 109, 47, 102, 108, 111, 119, 32, 115, 105, 109, 117, 108, 97, 116, 105, 111, 110]   -- "opm/flow simulation"
+
+/-- the raw record of TITLE: the line after `del_after_first_slash` — the slash, if any, is
+NOT removed (`RawRecord(record_buffer)` on the whole buffer); an empty line gives the
+default title. -/
+def titleRecord (line : Bytes) : Option (List Bytes) :=
+  if (delAfterFirstSlash line).isEmpty then rawRecord defaultTitle else rawRecord (delAfterFirstSlash line)
+
+/-- PATHS: `addPathAlias(item 0, item 1)` for every raw record; `std::map::emplace` keeps the
+first value of a name (the alias list is searched front to back). -/
+def pathAliases : List (List Bytes) → Option (List (Bytes × Bytes))
+  | [] => some []
+  | toks :: rest =>
+    match toks with
+    | a :: b :: _ =>
+      match readString a, readString b, pathAliases rest with
+      | some x, some y, some r => some ((x, y) :: r)
+      | _, _, _ => none
+    | _ => none        -- `m_recordItems.at(index)` throws
+
+/-- what one round of the keyword loop asks for: stop with a result, or go on from a new
+state (aliases, deck so far, lines still to be read). -/
+inductive Next where
+  | done (r : Option DeckT)
+  | goto (al : List (Bytes × Bytes)) (deck : DeckT) (lines : List Bytes)
+
+/-- the raw keyword for a keyword line and the lines left behind it: finished at creation
+(size 0), TITLE (`is_title`), or the record loop `feedLines`. -/
+def keywordRes (recog : Bytes → Bool) (dn : Bytes) (k0 : Kw) (rest : List Bytes) : Option (Kw × List Bytes) :=
+  if k0.finished then some (k0, rest)
+  else if dn == nameTITLE then
+    match titleNext false rest with
+    | none => none
+    | some (l, rest') =>
+      match titleRecord l with
+      | none => none
+      | some toks => some (k0.addRecord toks, rest')
+  else feedLines recog k0 [] [] rest
+
+/-- what `parseState` does with a raw keyword: END, ENDINC, PATHS, INCLUDE, or
+`ParserKeyword::parse` and `deck.addKeyword`. -/
+def dispatch (cv : Conv) (files : List (Bytes × Bytes) → Bytes → Option Bytes)
+    (al : List (Bytes × Bytes)) (deck : DeckT) (name : Bytes) (d : KwDef) (k : Kw) (rest' : List Bytes) : Next :=
+  if !k.finished then .done none
+  else if name == nameEND then .done (some deck)
+  else if name == nameENDINC then .goto al deck (dropFile rest')
+  else if name == namePATHS then
+    match pathAliases k.records with
+    | none => .done none
+    | some more => .goto (al ++ more) deck rest'
+  else if name == nameINCLUDE then
+    match k.records with
+    | (tok :: _) :: _ =>
+      match readString tok with
+      | none => .done none
+      | some path =>
+        match files al path with
+        | none => .done none
+        | some content => .goto al deck (splitLines (fastClean (content ++ [10])) ++ eofMark :: rest')
+    | _ => .done none
+  else
+    match (if d.dbl then parseRecordsDouble cv d.schemas d.alt 0 k.records
+           else parseRecords cv d.schemas d.alt 0 k.records) with
+    | none => .done none
+    | some rs => .goto al (deck ++ [⟨name, rs⟩]) rest'
+
+/-- one round of the keyword loop `parseState` (`tryParseKeyword` + the dispatch behind it).
+`recog`: `Parser::isRecognizedKeyword`; `files`: path aliases (PATHS) and INCLUDE path →
+content (`getIncludeFilePath` + `loadFile`; `$NAME` substitution and file lookup are a
+parameter). -/
+def parseStep (cv : Conv) (tbl : Table) (recog : Bytes → Bool)
+    (files : List (Bytes × Bytes) → Bytes → Option Bytes) :
+    List (Bytes × Bytes) → DeckT → List Bytes → Next
+  | _, deck, [] => .done (some deck)
+  | al, deck, line :: rest =>
+    if line.isEmpty then .goto al deck rest
+    else if line = eofMark then .goto al deck rest
     else
       let dn := makeDeckName line
-      if !validDeckName dn then none
+      if isSkipName dn then .goto al deck (dropSkip rest)
+      else if dn == nameENDSKIP then .goto al deck rest
+      else if !validDeckName dn then .done none
       else
         match findKw tbl dn with
-        | none => none
+        | none => .done none
         | some (name, d) =>
           match newRaw d deck with
-          | none => none
+          | none => .done none
           | some k0 =>
-            match (if k0.finished then some (k0, rest) else feedLines recog k0 [] [] rest) with
-            | none => none
-            | some (k, rest') =>
-              if !k.finished then none
-              else if name == nameEND then some deck
-              else if name == nameINCLUDE then
-                match k.records with
-                | (tok :: _) :: _ =>
-                  match readString tok with
-                  | none => none
-                  | some path =>
-                    match files path with
-                    | none => none
-                    | some content =>
-                      parseLoop cv tbl recog files fuel deck (splitLines (fastClean (content ++ [10])) ++ rest')
-                | _ => none
-              else
-                match (if d.dbl then parseRecordsDouble cv d.schemas d.alt 0 k.records
-                       else parseRecords cv d.schemas d.alt 0 k.records) with
-                | none => none
-                | some rs => parseLoop cv tbl recog files fuel (deck ++ [⟨name, rs⟩]) rest'
+            match keywordRes recog dn k0 rest with
+            | none => .done none
+            | some (k, rest') => dispatch cv files al deck name d k rest'
+
+/-- the keyword loop: rounds until the input is used up (or END, or an error); `fuel`
+bounds the number of rounds (only a file that includes itself needs unboundedly many). -/
+def parseLoop (cv : Conv) (tbl : Table) (recog : Bytes → Bool)
+    (files : List (Bytes × Bytes) → Bytes → Option Bytes) :
+    Nat → List (Bytes × Bytes) → DeckT → List Bytes → Option DeckT
+  | 0, _, _, _ => none
+  | fuel + 1, al, deck, lines =>
+    match parseStep cv tbl recog files al deck lines with
+    | .done r => r
+    | .goto al' deck' lines' => parseLoop cv tbl recog files fuel al' deck' lines'
 
 /-- `Parser::parseString`. -/
-def parseDeckText (cv : Conv) (tbl : Table) (recog : Bytes → Bool) (files : Bytes → Option Bytes)
-    (fuel : Nat) (text : Bytes) : Option DeckT :=
-  parseLoop cv tbl recog files fuel [] (splitLines (fastClean (text ++ [10])))
+def parseDeckText (cv : Conv) (tbl : Table) (recog : Bytes → Bool)
+    (files : List (Bytes × Bytes) → Bytes → Option Bytes) (fuel : Nat) (text : Bytes) : Option DeckT :=
+  parseLoop cv tbl recog files fuel [] [] (splitLines (fastClean (text ++ [10])))
 
 end OpmVerif.Deck
